@@ -10,6 +10,24 @@ pub const FRAGMENTS: &[&str] = &[
     "\u{0b}", "\u{a0}", "\u{3000}",
 ];
 
+/// Character-class completeness: one representative of every class a *standard-library*
+/// predicate distinguishes but the language does not (`is_ascii_whitespace` differs from the
+/// language's whitespace on form feed, `char::is_numeric` on non-ASCII digits, `is_alphanumeric`
+/// on letters outside ASCII, `is_ascii_punctuation` on `#` `@` `~` `\\` ...), the remaining
+/// operator-start characters and boolean spellings. Swept together with FRAGMENTS at a smaller L.
+pub const FRAGMENTS_EXTRA: &[&str] = &[
+    "\u{0c}", "\u{85}", "\u{2028}", "\u{200b}", "\u{feff}", "\u{301}", "\0", "\u{7f}",
+    "\u{663}", "\u{b2}", "\u{2167}", "\u{c9}", "\u{df}",
+    "\\", "#", "@", "$", "~", "`", "/", "%", "^",
+    "True", "false", "False", "TRUE", "OR", "or", "endWith", "00",
+];
+
+pub fn fragments_wide() -> Vec<&'static str> {
+    let mut v = FRAGMENTS.to_vec();
+    v.extend_from_slice(FRAGMENTS_EXTRA);
+    v
+}
+
 /// 16-fragment sub-alphabet: one per tokenizer branch, all three multi-byte widths kept.
 pub const FRAGMENTS_SMALL: &[&str] =
     &["a", "in", "1.5", "e", "+", "<", "=", "!", "(", ")", ",", "'", " ", "é", "€", "😀"];
